@@ -311,7 +311,8 @@ theorem build_stages (roots : List DT) (rootFile : Bytes) (banned : List Kind)
     (content : Bytes → Bytes) (b : Built) (h : build roots rootFile banned content = .ok b) :
     ∃ ms dirs fuel ps tags enums s, collectMacro roots [] [] = .ok (ms, dirs) ∧ pasteList ms fuel dirs {} = .ok ps ∧
       b.expanded = ps.ctx.forest ∧ collectTags b.expanded [] = .ok tags ∧
-      addList content b.expanded [] b.expanded [] { cat := { tags := tags, enums := enums }, banned := banned } = .ok s ∧
+      addList content b.expanded [] b.expanded []
+        { cat := { tags := tags, enums := enums }, banned := banned, raw := collectRawTypes b.expanded [] } = .ok s ∧
       b.cat = s.cat := by
   unfold build at h
   cases hcm : collectMacro roots [] [] with
